@@ -117,7 +117,7 @@ Definition exp_ok (now : Z) (c : consumer) (exp : Z) : Prop :=
   match c with
   | CSession _ | CCliVerify | CCliSend _ _ => now <= exp * NS
   | CUpdate _ => True      (* the re-signed cookie keeps exp: see update_keeps_expiry *)
-  | CStorage _ _ | CToken _ | CUserinfo => unix now <= exp
+  | CStorage _ _ _ _ | CToken _ | CUserinfo => unix now <= exp
   end.
 
 (* consumers whose struct declares a not-before claim *)
@@ -127,12 +127,12 @@ Definition checks_nbf (c : consumer) : Prop :=
 Definition window (now : Z) (c : consumer) (cl : claimset) : Prop :=
   (exists exp, rd_int "exp" cl = Some exp /\ exp_ok now c exp) /\
   (checks_nbf c -> exists nbf, rd_int "nbf" cl = Some nbf /\ nbf <= unix now) /\
-  match c with CStorage _ col => unix now < col | _ => True end.
+  match c with CStorage _ _ col _ => unix now < col | _ => True end.
 
 (* consumers that compare the signed subject with somebody *)
 Definition subject_bound (c : consumer) (cl : claimset) : Prop :=
   match c with
-  | CCliSend _ u | CStorage u _ => rd_str "sub" cl = Some u
+  | CCliSend _ u | CStorage _ u _ _ => rd_str "sub" cl = Some u
   | CSession req => exists l, rd_int "auth_type" cl = Some l /\ Z.land l req <> 0
   | _ => True
   end.
@@ -145,7 +145,7 @@ Lemma accepts_sound i now c t : accepts i now c t = true ->
   window now c (t_claims t) /\ (must_name_server c -> names_server (srv i) (t_claims t)) /\
   subject_bound c (t_claims t).
 Proof.
-  unfold accepts, window. destruct c as [req|l| |l u|u col|r|];
+  unfold accepts, window. destruct c as [req|l| |l u|p u col other|r|];
     cbn [op_of exec kind_claim kind_const consumes must_name_server checks_nbf exp_ok subject_bound].
   - destruct (c_session (srv i) now req t) as [a|] eqn:C; [|discriminate]. intros _.
     apply c_session_sound in C. destruct C as [A [E L]].
@@ -167,7 +167,12 @@ Proof.
     apply auth_info_sound in A. destruct A as [G [NS [K [N [X [S _]]]]]].
     split; [exact G|]. split; [exact K|]. split; [|split; [auto|congruence]].
     split; [eauto|]. auto.
-  - destruct (c_storage (srv i) now u {| r_col_exp := col; r_jws := t |}) as [d|] eqn:C; [|discriminate]. intros _.
+  - assert (o_ok (exec i (op_of now (CStorage p u col other) t)) =
+            match c_storage (srv i) now u {| r_col_exp := col; r_jws := t |} with Some _ => true | None => false end) as EQ.
+    { destruct p; cbn [op_of exec get_signed_via answering_row];
+        destruct (c_storage (srv i) now u {| r_col_exp := col; r_jws := t |}); reflexivity. }
+    cbn [op_of] in EQ. rewrite EQ. clear EQ.
+    destruct (c_storage (srv i) now u {| r_col_exp := col; r_jws := t |}) as [d|] eqn:C; [|discriminate]. intros _.
     apply c_storage_sound in C. cbn [r_col_exp r_jws] in C. destruct C as [CE [g [SD [SU _]]]].
     apply storage_data_sound in SD. destruct SD as [G [NS [K [N [X [XE [S _]]]]]]].
     split; [exact G|]. split; [exact K|]. split; [|split; [auto|congruence]].
@@ -224,7 +229,7 @@ Lemma single_claim_resigned i now c t n v : accepts i now c (reclaim t n v) = tr
   (n = "aud"%string -> must_name_server c -> exists rest, v = VList (s_issuer (srv i) :: rest)) /\
   (n = "nbf"%string -> checks_nbf c -> exists z, v = VInt z /\ z <= unix now) /\
   (n = "exp"%string -> exists z, v = VInt z /\ exp_ok now c z) /\
-  (n = "sub"%string -> match c with CCliSend _ u | CStorage u _ => v = VStr u | _ => True end) /\
+  (n = "sub"%string -> match c with CCliSend _ u | CStorage _ u _ _ => v = VStr u | _ => True end) /\
   (n = "auth_type"%string -> match c with CSession req => exists l, v = VInt l /\ Z.land l req <> 0 | _ => True end).
 Proof.
   intro A. apply accepts_sound in A. cbn [reclaim t_claims] in A.
@@ -318,7 +323,7 @@ Proof.
   - destruct (c_cli_verify (srv i) now t0); cbn; tauto.
   - destruct (c_cli_send (srv i) now cli_level session_user t0) as [t'|] eqn:U; cbn; [|tauto]. intros [<-|[]].
     apply c_cli_send_sound in U. destruct U as [a [_ [_ [_ ->]]]]. apply ShAuth.
-  - destruct (c_storage (srv i) now user r); cbn; tauto.
+  - unfold get_signed_via. destruct (answering_row p prim cache) as [r|]; [destruct (c_storage (srv i) now user r)|]; cbn; tauto.
 Qed.
 
 Lemma authorize_sound i now u a t : authorize i now u a = Some t ->
